@@ -81,8 +81,8 @@ Definition C02_translate_wf_full : Prop :=
    pairwise distinct and fresh (C02_generated_names_fresh); block_outputs / loop_outputs list a value only when a node of
    the block defines it and it is not listed yet and otherwise copy it with Identity (the Identity-copy rule, with the
    repaired alias and duplicate-output cases).
-   What is not proved is only the step from wf_graph back to the boolean (completeness of the checker), so
-   C02_translate_wf_full, stated with wf_graphb, stays a Definition; on every generated program the harness also evaluates
+   Session 6: completeness of the checker is proved (Graph/WfCompleteProofs.v), and C02_translate_wf_full is a theorem:
+   Props/C02_complete.v, C02_translate_wf_full_proved (this Definition is kept for reference); on every generated program the harness also evaluates
    wf_graphb on the model's graph (obligation "C02_translate_wf_full observed"). *)
 Theorem C02_translate_wf_all : forall globals cic afuel orders f g,
   NoDup (f_tparams f) ->
